@@ -21,7 +21,7 @@ import zlib
 
 from . import common, collectlib
 
-BOUNDS = {'quick': dict(n=3, limit=12000), 'thorough': dict(n=4, limit=150000)}
+BOUNDS = {'quick': dict(n=3, limit=12000), 'thorough': dict(n=3, limit=None, core=4, corelimit=150000)}
 STYLES = ('freeform', 'google', 'auto')
 
 
@@ -72,7 +72,10 @@ def run(tier):
     b = BOUNDS[tier]
     out.rule = ('every importable module of <= %d items (depth <= 2) over C16_Items x 2 module docstrings in Collect.tla; static and dynamic '
                 'collection under three styles (sampled where stated)' % b['n'])
-    collectlib.run_space(out, 'C16_Items<=%d' % b['n'], 'C16_Items', 'C07_ModDocs', b['n'], _one, sig, limit=b['limit'])
+    collectlib.run_space(out, 'C16_Items<=%d' % b['n'], 'C16_Items', 'C07_ModDocs', b['n'], _one, sig, limit=b['limit'], timeout=3600)
+    if b.get('core'):
+        # longer modules over the core alphabet (21 item kinds)
+        collectlib.run_space(out, 'C16_Core<=%d' % b['core'], 'C16_Core', 'C07_ModDocs', b['core'], _one, sig, limit=b['corelimit'], timeout=5400)
     out.exhaustive = not out.extra.get('replay_sampled', False)
     out.assumptions = ['premise of the property: ordinary def/class statements executed at import; no aliases, no differently named setters, no dead branches',
                        'module docstring: compared as every other docstring']
